@@ -238,3 +238,101 @@ func sortStrings(s []string) {
 		}
 	}
 }
+
+// SideConds lists the maximal && / || chains that mention at least two box-edge fields
+// (Margin/Padding/Border × side, anywhere inside the operands). A chain is consistent when every kind of edge it
+// mentions appears with the same set of sides: `BorderBottomWidth != 0 || PaddingBottom != 0` and the four-term
+// collapse-through test (both sides of both kinds) are; `BorderBottomWidth … || PaddingTop …` is not.
+func (p *Prog) SideConds(pkg string, keep func(file string) bool) []SideSum {
+	pk := p.ByPath[pkg]
+	if pk == nil {
+		return nil
+	}
+	var out []SideSum
+	isBool := func(op string) bool { return op == "&&" || op == "||" }
+	for _, f := range pk.Syntax {
+		name := p.Fset.Position(f.Pos()).Filename
+		if i := strings.LastIndex(name, "/"); i >= 0 {
+			name = name[i+1:]
+		}
+		if strings.HasSuffix(name, "_test.go") || (keep != nil && !keep(name)) {
+			continue
+		}
+		for _, d := range f.Decls {
+			fd, ok := d.(*ast.FuncDecl)
+			if !ok || fd.Body == nil {
+				continue
+			}
+			inner := map[ast.Expr]bool{}
+			ast.Inspect(fd.Body, func(n ast.Node) bool {
+				b, ok := n.(*ast.BinaryExpr)
+				if !ok || !isBool(b.Op.String()) || inner[b] {
+					return true
+				}
+				var mark func(e ast.Expr)
+				mark = func(e ast.Expr) {
+					switch x := e.(type) {
+					case *ast.BinaryExpr:
+						if isBool(x.Op.String()) {
+							inner[x] = true
+							mark(x.X)
+							mark(x.Y)
+						}
+					case *ast.ParenExpr:
+						mark(x.X)
+					case *ast.UnaryExpr:
+						mark(x.X)
+					}
+				}
+				mark(b)
+				sides := map[string]map[string]int{}
+				cnt := 0
+				ast.Inspect(b, func(m ast.Node) bool {
+					if _, isLit := m.(*ast.FuncLit); isLit {
+						return false
+					}
+					sel, isSel := m.(*ast.SelectorExpr)
+					if !isSel {
+						return true
+					}
+					mm := sideFieldRe.FindStringSubmatch(sel.Sel.Name)
+					if mm == nil {
+						return true
+					}
+					if sides[mm[1]] == nil {
+						sides[mm[1]] = map[string]int{}
+					}
+					sides[mm[1]][mm[2]]++
+					cnt++
+					return true
+				})
+				if cnt < 2 || len(sides) < 2 {
+					return true
+				}
+				var sets []string
+				for k, m := range sides {
+					var ss []string
+					for s := range m {
+						ss = append(ss, s)
+					}
+					sortStrings(ss)
+					sets = append(sets, k+":"+strings.Join(ss, ","))
+				}
+				sortStrings(sets)
+				ok2 := true
+				first := ""
+				for i, s := range sets {
+					v := s[strings.Index(s, ":")+1:]
+					if i == 0 {
+						first = v
+					} else if v != first {
+						ok2 = false
+					}
+				}
+				out = append(out, SideSum{fd.Name.Name, b, p.NodeText(b), ok2, strings.Join(sets, " ")})
+				return true
+			})
+		}
+	}
+	return out
+}
